@@ -21,6 +21,7 @@ def run(ctx):
     ctx.tie("k_compile", k_compile.tie_compile)
     ctx.tie("k_seriescomp", k_seriescomp.tie_seriescomp)
     ctx.oracle("o_interp", o_interp.oracle_interp)
+    ctx.oracle("o_extras", o_interp.oracle_extras)
     ctx.searcher(search)
     return ctx.finish(lambda f: None)
 
@@ -38,6 +39,10 @@ def replay(rp):
     from oracles import o_interp
 
     f = rp.get("failure")
+    if f and "extra" in f.get("input", {}):
+        fails = o_interp.replay_extra(f["input"])
+        print("still failing: %s" % fails[0]["what"] if fails else "no longer failing")
+        return 1 if fails else 0
     if not f or "input" not in f or "world" not in f.get("input", {}):
         print("nothing to replay (no failing input recorded):", json.dumps(rp.get("no_longer_checks", rp.get("broken")), indent=1)[:2000])
         return 1
